@@ -75,12 +75,12 @@ DecodeRobust(r) == r.out # "panic" /\ (r.out = "accept" => r.typeok) /\ ~r.both
 RelOK(rel, out) ==
     CASE rel.shape = "badshape" -> out = "reject"
       [] rel.shape \in {"absent", "nodata", "null"} -> out = "accept" => rel.got = <<>>
-      [] rel.shape = "ident" -> out = "accept" => (rel.to1 /\ rel.got = rel.listed)
+      [] rel.shape \in {"ident", "identbadtype"} -> out = "accept" => (rel.to1 /\ rel.got = rel.listed)
       [] rel.shape = "list"  -> out = "accept" => (~rel.to1 /\ rel.got = rel.listed)
       [] OTHER -> FALSE
 
 \* an identifier object for a to-many, or a list for a to-one, cannot be accepted
-ShapeFits(rel) == (rel.shape = "ident" => rel.to1) /\ (rel.shape = "list" => ~rel.to1)
+ShapeFits(rel) == (rel.shape \in {"ident", "identbadtype"} => rel.to1) /\ (rel.shape = "list" => ~rel.to1)
 
 \* e: [out, rels, attrs_same (present attributes hold the payload's values),
 \*     absent_zero (absent fields hold zero values), idtype_same, remarshal_same]
@@ -89,6 +89,38 @@ PayloadOK(e) ==
     /\ \A i \in 1..Len(e.rels) : RelOK(e.rels[i], e.out)
     /\ (\E i \in 1..Len(e.rels) : ~ShapeFits(e.rels[i])) => e.out = "reject"
     /\ e.out = "accept" => e.attrs_same /\ e.absent_zero /\ e.idtype_same /\ e.remarshal_same
+
+-----------------------------------------------------------------------------
+(* C01: a resource marshaled with all fields and all relationship data and     *)
+(* unmarshaled against the same schema.  r: what the driver observed, field    *)
+(* by field, with independent comparisons (integers exactly, code points,      *)
+(* instants, bytes, nil-ness, to-one ids, to-many as sets).                    *)
+RoundTripOK(e) ==
+    /\ e.ret = "ok" /\ e.r.ok
+    /\ e.r.type_same /\ e.r.id_same
+    /\ e.r.attrs_same /\ e.r.nil_same
+    /\ e.r.to1_same /\ e.r.tomany_same
+    /\ e.r.litclass_ok      \* integers as JSON numbers with all their digits, nil as null
+
+-----------------------------------------------------------------------------
+(* C05: feeding a byte string to an entry point.                              *)
+\* out: "ok" (a result, no error), "err" (an error, no result), "both", "neither", "panic"
+FeedOK(e) ==
+    /\ e.out \in {"ok", "err"}
+    /\ (e.out = "ok" => e.conforms)
+    /\ (e.cls = "notjson" => e.out = "err")
+
+-----------------------------------------------------------------------------
+(* C13: partial unmarshaling reports exactly the fields present.               *)
+AsSet(q) == {q[i] : i \in 1..Len(q)}
+PartialOK(e) ==
+    /\ e.part # "panic"
+    /\ e.out # "panic" => e.part = e.out                 \* accepted iff full unmarshaling accepts
+    /\ e.part = "accept" =>
+          /\ e.pname_ok
+          /\ AsSet(e.pattrs) = AsSet(e.present) /\ Len(e.pattrs) = Cardinality(AsSet(e.present))
+          /\ AsSet(e.prels) = AsSet(e.wantrels) /\ Len(e.prels) = Cardinality(AsSet(e.wantrels))
+          /\ e.pdefs_ok /\ e.pvals_same
 
 -----------------------------------------------------------------------------
 (* Deviations of the pinned code                                           *)
@@ -108,6 +140,16 @@ Dev_NullBytesAccepted(e) ==
     /\ e.r.out = "accept" /\ ~e.r.isnil /\ e.r.typeok
 \* the bytes branch panics instead of returning an error
 Dev_BytesDecodeErrorPanics(e) ==
-    /\ e.ev = "decode" /\ e.kind = "bytes" /\ e.r.out = "panic"
-    /\ e.lit.cls \notin {"b64", "null"}
+    \/ (e.ev = "decode" /\ e.kind = "bytes" /\ e.r.out = "panic" /\ e.lit.cls \notin {"b64", "null"})
+    \/ (e.ev = "feed" /\ e.out = "panic" /\ e.bytesbad)
+\* an identifier whose type is not the relationship's target type is accepted and re-marshals with the target type
+Dev_LinkageTypeIgnored(e) ==
+    /\ e.ev = "payload" /\ e.out = "accept" /\ ~e.remarshal_same
+    /\ e.attrs_same /\ e.absent_zero /\ e.idtype_same
+    /\ \E i \in 1..Len(e.rels) : e.rels[i].shape = "identbadtype"
+\* (fixed) UnmarshalIdentifiers dereferenced a nil pointer for a null element
+Dev_IdentifiersNullElementPanics(e) == e.ev = "feed" /\ e.out = "panic" /\ e.entry = "UnmarshalIdentifiers" /\ ~e.bytesbad
+\* a payload whose type is unknown or missing is accepted: the resource's type is the zero Type
+Dev_UnknownTypeAccepted(e) ==
+    /\ e.ev = "feed" /\ e.out = "ok" /\ ~e.conforms /\ e.cls = "json"
 =============================================================================
